@@ -96,10 +96,15 @@ def _strip_comment(line):
 
 
 def preprocess(src):
-    """Returns (python_source, sigs, decls):
+    """Returns (python_source, sigs, decls, defaults):
+    defaults[fname] = [(param name, default expression text)],
     sigs[fname]  = list of (param name, type) in order,
     decls[fname] = {local name: type} from `cdef` declarations inside that function."""
-    sigs, decls = {}, {}
+    sigs, decls, defaults = {}, {}, {}
+    # 0. compiler directives in comments change the meaning of `%`, `//`, indexing: reject them
+    for ln in src.split('\n'):
+        if re.match(r'^\s*#\s*(cython|distutils)\s*:', ln):
+            raise Untranslatable('compiler directive comment %r' % ln.strip()[:80])
     # 1. function headers (may span several lines)
     out = []
     pos = 0
@@ -135,6 +140,8 @@ def preprocess(src):
                 raise Untranslatable('parameter %r of %s' % (a.strip(), name))
             params.append((mm.group(1), ty))
             pyargs.append(mm.group(1) + ('=' + mm.group(3) if mm.group(2) else ''))
+            if mm.group(2):
+                defaults.setdefault(name, []).append((mm.group(1), mm.group(3).strip()))
         if name in sigs:
             raise Untranslatable('function %s defined twice' % name)
         sigs[name] = params
@@ -182,7 +189,7 @@ def preprocess(src):
                 res.append('')
             continue
         res.append(ln)
-    return '\n'.join(res), sigs, decls
+    return '\n'.join(res), sigs, decls, defaults
 
 
 def _declare(d, nm, ty, fn):
@@ -215,6 +222,7 @@ class _Fn:
         self.ftype = dict(self.fields)
         self.ro_params = [(n, t) for n, t in params if n not in self.assigned]
         self.loop_no = 0
+        self.cont_no = {}
         self.defs = []                          # emitted auxiliary definitions (text), inner loops first
         self.uses_pmod = False
         self.uses_fuel = False
@@ -458,7 +466,9 @@ class _Fn:
         return '{ s with %s := %s }' % (lname(field), value)
 
     def block(self, stmts, ind, in_loop, top=False):
-        """Translate a statement list into lines `let s := …;`; the final line is `s`."""
+        """Translate a statement list into lines `let s := …;`; the final line is `s`.
+        `in_loop` is the name of the enclosing `for` loop when the list is (the tail of) its body
+        (only there `if c: continue` is accepted), else False."""
         pad = ' ' * ind
         L = []
         i = 0
@@ -479,10 +489,14 @@ class _Fn:
             if isinstance(st, ast.If) and len(st.body) == 1 and isinstance(st.body[0], ast.Continue) and not st.orelse:
                 if not in_loop:
                     raise self.err(st, 'continue outside a for body')
-                rest = self.block(stmts[i + 1:], ind + 4, in_loop)
-                L.append(pad + 'if %s then s else (' % self.cond(st.test))
-                L.extend(rest)
-                L.append(pad + ')')
+                # the statements skipped by `continue` become a definition of their own, `<loop>_body_cont<n>`
+                cond = self.cond(st.test)
+                self.cont_no[in_loop] = self.cont_no.get(in_loop, 0) + 1
+                cname = '%s_body_cont%d' % (in_loop, self.cont_no[in_loop])
+                rest = self.block(stmts[i + 1:], 2, in_loop)
+                d = ['def %s %s (s : %s.St K) : %s.St K :=' % (cname, self.ro_binders(), self.name, self.name)] + rest
+                self.defs.append('\n'.join(d))
+                L.append(pad + 'if %s then s else %s %s s' % (cond, cname, self.ro_args()))
                 return L
             L.extend(self.stmt(st, ind))
             i += 1
@@ -585,7 +599,7 @@ class _Fn:
             if self.ftype[v1] != 'nat' or self.ftype[v2] != 'nat' or v1 == v2:
                 raise self.err(st, 'loop variables must be distinct unsigned ints')
             lo, hi = self._range_bounds(it.args[0], st)
-            body = self.block(st.body, 2, True)
+            body = self.block(st.body, 2, base)
             d = ['def %s_body %s (v1 v2 : ℕ) (s : %s.St K) : %s.St K :=' % (base, self.ro_binders(), self.name, self.name),
                  '  ' + self.let() + ' %s;' % self.upd(v1, 'v1'),
                  '  ' + self.let() + ' %s;' % self.upd(v2, 'v2')] + body
@@ -598,7 +612,7 @@ class _Fn:
             if self.ftype[v] != 'nat':
                 raise self.err(st, 'loop variable %s must be an unsigned int' % v)
             lo, hi = self._range_bounds(it, st)
-            body = self.block(st.body, 2, True)
+            body = self.block(st.body, 2, base)
             d = ['def %s_body %s (v : ℕ) (s : %s.St K) : %s.St K :=' % (base, self.ro_binders(), self.name, self.name),
                  '  ' + self.let() + ' %s;' % self.upd(v, 'v')] + body
             d += ['', 'def %s %s (s : %s.St K) : %s.St K :=' % (base, self.ro_binders(), self.name, self.name),
@@ -730,10 +744,11 @@ FOOTER = '\nend Splipy.Generated.Pyx\n'
 
 
 def translate(src):
-    """Returns {'lean': text, 'digest': sha256 of the normalised AST of the four functions,
-    'functions': {...}, 'notes': [...]}; raises Untranslatable."""
+    """Returns {'lean': text, 'digest': sha256 prefix of the generated text, 'functions': {...}, 'notes': [...],
+    'failed': {function: reason}} (functions outside the subset); raises Untranslatable when the file as a
+    whole cannot be read (preprocessor, parser, missing function)."""
     try:
-        py, sigs, decls = preprocess(src)
+        py, sigs, decls, defaults = preprocess(src)
     except Untranslatable:
         raise
     try:
@@ -759,20 +774,29 @@ def translate(src):
         # an additional function can only matter if one of the four calls it, which is rejected below
         notes.append('functions not translated (not called by the translated ones): ' + ', '.join(extra))
     parts = []
-    ret_types, ret_pmod, info = {}, {}, {}
+    ret_types, ret_pmod, info, failed = {}, {}, {}, {}
     for f in FUNCS:
-        fn = _Fn(f, fdefs[f], sigs[f], decls.get(f, {}), sigs, dict(ret_types))
-        fn.ret_types_pmod = dict(ret_pmod)
-        text = fn.translate()
+        # a function outside the subset is replaced by a marker (no definitions): its own equality theorems
+        # and those of every function calling it then fail, the others are still checked
+        try:
+            fn = _Fn(f, fdefs[f], sigs[f], decls.get(f, {}), sigs, dict(ret_types))
+            fn.ret_types_pmod = dict(ret_pmod)
+            text = fn.translate()
+        except Untranslatable as e:
+            failed[f] = str(e)
+            parts.append('/-! ### `%s` -/\n\n-- UNTRANSLATABLE: %s\n' % (f, str(e).replace('-/', '- /').replace('\n', ' ')))
+            continue
+        dflt = ', '.join('("%s", "%s")' % (n, e.replace('\\', '\\\\').replace('"', '\\"')) for n, e in defaults.get(f, []))
+        text += '\n\n/-- Default values of the parameters of `%s` (source text). -/\ndef %s.defaults : List (String × String) := [%s]' % (f, f, dflt)
         parts.append('/-! ### `%s` -/\n\n%s\n' % (f, text))
         if fn.ret_type is not None and not isinstance(fn.ret_type, tuple):
             ret_types[f] = fn.ret_type            # callable from the later functions
         ret_pmod[f] = fn.uses_pmod_transitive()
         info[f] = {'params': [[n, t] for n, t in fn.params], 'state': [[n, t] for n, t in fn.fields], 'loops': fn.loop_no,
                    'returns': repr(fn.ret_type)}
-    digest = hashlib.sha256('\n'.join(ast.dump(fdefs[f], include_attributes=False) for f in FUNCS).encode()).hexdigest()[:16]
     lean = (HEADER % ', '.join(FUNCS)) + '\n'.join(parts) + FOOTER
-    return {'lean': lean, 'digest': digest, 'functions': info, 'notes': notes}
+    digest = hashlib.sha256(lean.encode()).hexdigest()[:16]      # of the generated text: blind to comments/docstrings
+    return {'lean': lean, 'digest': digest, 'functions': info, 'notes': notes, 'failed': failed}
 
 
 def untranslatable_text(reason):
@@ -786,6 +810,9 @@ if __name__ == '__main__':   # manual use: python pyx_translate.py /repo/splipy/
     try:
         r = translate(open(sys.argv[1], encoding='utf-8').read())
         print(r['lean'])
+        if r['failed']:
+            print('UNTRANSLATABLE:', r['failed'], file=sys.stderr)
+            sys.exit(1)
     except Untranslatable as e:
         print('UNTRANSLATABLE:', e)
         sys.exit(1)
